@@ -234,6 +234,7 @@ def check_mean_prediction(case):
 
 _weights = st.one_of(
     st.sampled_from([1e-10, 3e-10, 2.5e-9]),
+    st.sampled_from([1e19, 3e20, 2.5e25]),  # float weights beyond the int64 range
     st.integers(1, 4).map(float),
     st.sampled_from([0.25, 0.5, 1.5, 2.0, 3.0, 10.0]),
     st.floats(0.01, 100, allow_nan=False),
